@@ -46,7 +46,12 @@ func hookVarName(fn *ssa.Function) string {
 		t = strings.Trim(t, "*()")
 		n = t + "_" + n
 	}
-	return "VerifHook_" + n
+	return "VerifHook_" + strings.Map(func(r rune) rune {
+		if r == '_' || r >= '0' && r <= '9' || r >= 'a' && r <= 'z' || r >= 'A' && r <= 'Z' {
+			return r
+		}
+		return '_'
+	}, n)
 }
 
 // buildHookOverlay returns overlay entries (path -> temp file) and hook descriptors.
@@ -85,13 +90,15 @@ func buildHookOverlay(prog *ssa.Program, cfg *HarnessConfig, under *packages.Pac
 		if !ok || decl.Body == nil {
 			return nil, nil, fmt.Errorf("replacement target %s has no declaration body", k)
 		}
-		if decl.Type.TypeParams != nil {
-			return nil, nil, fmt.Errorf("replacement target %s is generic", k)
+		generic := decl.Type.TypeParams != nil
+		if generic && fn.Signature.Recv() != nil {
+			return nil, nil, fmt.Errorf("replacement target %s is a method of a generic type", k)
 		}
 		fset := prog.Fset
 		fname := fset.Position(decl.Pos()).Filename
-		if strings.Contains(fname, "/pkg/mod/") {
-			// the go tool refuses overlays beneath GOMODCACHE: hook the call sites in the package under test instead.
+		if strings.Contains(fname, "/pkg/mod/") || generic {
+			// the go tool refuses overlays beneath GOMODCACHE, and a hook variable cannot be typed for a generic callee:
+			// hook the call sites (of this instantiation) in the package under test instead.
 			//   f(args)  ->  verifHookSite_f(f)(args)      with a generic selector that prefers the hook when one is set
 			hv := hookVarName(fn)
 			site := "verifHookSite" + strings.TrimPrefix(hv, "VerifHook")
@@ -107,14 +114,32 @@ func buildHookOverlay(prog *ssa.Program, cfg *HarnessConfig, under *packages.Pac
 						return true
 					}
 					var id *ast.Ident
-					switch f := call.Fun.(type) {
+					fun := call.Fun
+					if ix, ok := fun.(*ast.IndexExpr); ok && generic {
+						fun = ix.X
+					} else if ix, ok := fun.(*ast.IndexListExpr); ok && generic {
+						fun = ix.X
+					}
+					switch f := fun.(type) {
 					case *ast.Ident:
 						id = f
 					case *ast.SelectorExpr:
 						id = f.Sel
 					}
-					if id == nil || under.TypesInfo.Uses[id] != fn.Object() {
+					obj := fn.Object()
+					if generic && fn.Origin() != nil {
+						obj = fn.Origin().Object()
+					}
+					if id == nil || under.TypesInfo.Uses[id] != obj {
 						return true
+					}
+					if generic {
+						if fun == call.Fun {
+							return true // inferred instantiation: no expression names the instance
+						}
+						if rf := cfg.replFns[k]; rf == nil || !types.Identical(under.TypesInfo.TypeOf(call.Fun), rf.Signature) {
+							return true // another instantiation than the one the harness function stands in for
+						}
 					}
 					fe := files[ffn]
 					if fe == nil {
